@@ -8,8 +8,12 @@ class H:
     """One harness: name, what it bounds, expectation."""
 
     def __init__(self, name, bound, functions, expect="pass", stubs=(), assumes=(), tiers=("quick", "thorough"),
-                 timeout=1200):
+                 timeout=1200, optional=None):
         self.name, self.bound, self.functions = name, bound, list(functions)
+        # optional = a deepening beyond the quick tier's bound: if the solver does not finish it
+        # inside its time limit the bound is reported as NOT reached (evidence: bounds_not_reached)
+        # and the claim of the run is the set of bounds that were decided; nothing is claimed for it
+        self.optional = (tuple(tiers) == ("thorough",) and expect == "pass") if optional is None else optional
         self.expect, self.stubs, self.assumes, self.tiers, self.timeout = expect, list(stubs), list(assumes), tiers, timeout
 
 
@@ -41,15 +45,33 @@ def run_property(prop, level, harnesses, crate_dir, target_dir, replayer, packag
     run = run or Run(prop, level)
     t = tier()
     sel = [h for h in harnesses if t in h.tiers]
-    names = [h.name for h in sel]
-    tmax = max(h.timeout for h in sel)
-    res, wall, out = kani.run_kani(crate_dir, names, target_dir, jobs=jobs, harness_timeout=tmax,
-                                   package=package, env=env, mem_gb=mem_gb, playback=playback)
+    # required harnesses (the quick tier's bounds + vacuity twins) and optional deepenings run in
+    # separate `cargo kani` invocations: a driver that dies on a deep harness (memory) must not
+    # take the required results with it
+    req = [h for h in sel if not h.optional]
+    opt = [h for h in sel if h.optional]
+    res, wall, out = {}, 0.0, ""
+    if req:
+        res, wall, out = kani.run_kani(crate_dir, [h.name for h in req], target_dir, jobs=jobs,
+                                       harness_timeout=max(h.timeout for h in req),
+                                       package=package, env=env, mem_gb=mem_gb, playback=playback)
+    if opt:
+        ojobs = int(os.environ.get("VERIF_DEEP_JOBS", "5"))
+        cap = int(os.environ.get("VERIF_DEEP_TIMEOUT", "0"))     # optional cap on the deepenings' time limit
+        if cap:
+            for h in opt:
+                h.timeout = min(h.timeout, cap)
+        r2, w2, o2 = kani.run_kani(crate_dir, [h.name for h in opt], target_dir, jobs=min(jobs, ojobs),
+                                   harness_timeout=max(h.timeout for h in opt),
+                                   package=package, env=env, mem_gb=max(mem_gb, 44), playback=playback)
+        res.update(r2)
+        wall += w2
     evaluations = 0
     nontrivial = 0
     hl = []
     solver_time = 0.0
     samples = []
+    not_reached = []
     for h in sel:
         r = res[h.name]
         d = r.as_dict()
@@ -101,6 +123,10 @@ def run_property(prop, level, harnesses, crate_dir, target_dir, replayer, packag
                            "(harness/stub defect, not reported as a violation): %s" % (h.name, r.failed_descs[:2]))
             else:
                 run.inconc("harness %s failed but no native replay could be produced" % h.name)
+        elif h.optional and r.status in ("TIMEOUT", "ERROR", "NOT_RUN"):
+            not_reached.append({"harness": h.name, "bound": h.bound, "status": r.status, "time_limit_s": h.timeout})
+            run.assume("NOT DECIDED in this run (deepening beyond the quick bound, solver did not finish: %s): %s - %s; nothing is claimed for it"
+                       % (r.status, h.name, h.bound))
         else:
             run.inconc("harness %s: %s %s" % (h.name, r.status, (r.raw or "")[-600:].replace("\n", " | ")))
     if not samples:
@@ -118,6 +144,7 @@ def run_property(prop, level, harnesses, crate_dir, target_dir, replayer, packag
         "solver_time_s": round(solver_time, 2),
         "kani_wall_s": round(wall, 2),
         "exhaustive": False,
+        "bounds_not_reached": not_reached,
     })
     if extra_cov:
         run.cov.update(extra_cov)
